@@ -38,6 +38,8 @@ ASSUMES = [
     "field names are lower_snake_case (names_agree: to_camel_case and protobuf's JSON name coincide; evaluated on every generated method)",
     "presence of EMPTY sub-messages is not represented (a query string cannot carry it); values contain no newline",
     "C04_required_defaults_complete_partial: requests sent through an additional binding are covered only w.r.t. the FIRST rule",
+    "C04_wire_names_uri / C04_uri_names_proto: the converted uri tokens are printable and no field or variable component is a reserved "
+    "word followed by '_' (two such fields share one attribute); both evaluated on every generated uri and on sampled requests",
 ]
 
 SVC_MOD = "tc_service"
@@ -63,7 +65,9 @@ def _t0_literals():
                 out["TRY_PARSE_TESTS_src"] = " ; ".join(tests)
             if cls.name == "Method" and fn.name == "query_params":
                 out["QUERY_PARAMS_RETURN_src"] = " ; ".join(ast.unparse(n.value) for n in ast.walk(fn) if isinstance(n, ast.Return) and n.value is not None)
-    for k in ("PATH_PARAMS_RE_src", "TRY_PARSE_TESTS_src", "QUERY_PARAMS_RETURN_src"):
+                out["QUERY_PARAMS_SUFFIX_src"] = " ; ".join(f"if {ast.unparse(n.test)}: {ast.unparse(n.body[0])}" for n in ast.walk(fn)
+                                                            if isinstance(n, ast.If) and any(isinstance(x, ast.SetComp) for x in ast.walk(n)))
+    for k in ("PATH_PARAMS_RE_src", "TRY_PARSE_TESTS_src", "QUERY_PARAMS_RETURN_src", "QUERY_PARAMS_SUFFIX_src"):
         if k not in out:
             raise ValueError(f"{k}: anchor not found in gapic/schema/wrappers.py")
     # contract (installed api_core): the re.VERBOSE pattern without its comments and whitespace
@@ -90,6 +94,7 @@ PINNED = {
     "PATH_PARAMS_RE_src": r"\{(\w+)(?:=.+?)?\}",
     "TRY_PARSE_TESTS_src": "method is None or method == 'custom' ; not uri ; body in utils.RESERVED_NAMES and (not body.endswith('_'))",
     "QUERY_PARAMS_RETURN_src": "set(self.input.fields) - params ; set() ; set()",
+    "QUERY_PARAMS_SUFFIX_src": "if self.input.meta.address.is_proto_plus_type: params = {param + '_' if param in utils.RESERVED_NAMES else param for param in params}",
     "VARIABLE_RE_src": r"((?P<positional>\*\*?)|{(?P<name>[^/]+?)(?:=(?P<template>.+?))?})",
     "SEGMENT_PATTERNS_src": "([^/]+) (.+)",
 }
@@ -472,6 +477,8 @@ def evaluate(ctx, jobs, results, tag):
                 for x in [ms["rule"]] + ms["more"]:
                     if x["pat"] == "verb":
                         checks.append((f"#{idx} {name}: wf_uri {x['uri']}", f"wf_uri {coq.s(x['uri'])}"))
+                        checks.append((f"#{idx} {name}: printable/clash-free {x['uri']}",
+                                       f"printable (map fix_tok (utoks {coq.s(x['uri'])})) && names_clash_free (utoks {coq.s(x['uri'])})"))
             b, rt = res["base"].get(name), res["rest"].get(name)
             lbl = f"#{idx}{'n' if numeric else ''} {name}"
             if b is None or rt is None:
@@ -566,6 +573,8 @@ def evaluate(ctx, jobs, results, tag):
                 t2cases[lbl] = case
                 continue
             checks.append((lbl, f"outcome_eqb (run {coq.b(numeric)} m_{idx}_{c['method']} {A.req_term(A.leaves_of(msg))}) {obs}"))
+            if ci % 5 == 0:
+                checks.append((f"#{idx} {c['method']}[{ci}]: req_clash_free", f"req_clash_free {A.req_term(A.leaves_of(msg))}"))
             t2cases[lbl] = case
     failing, errors, nfiles = coq.eval_checks(f"c04{tag}", IMPORTS, "\n".join(defs), checks)
     t1f = [f for f in failing if f.startswith("T1")] + pins_bad
@@ -577,7 +586,7 @@ def evaluate(ctx, jobs, results, tag):
                f"= model output ({n1} comparisons) and the call-path shape pins", not t1f and not errors and n1 > 0, "; ".join((t1f + errors)[:8]), "T1")
     ctx.oblige(f"T2 [{tag}] emitted REST transport = model run on {n2} driven calls (verb, path, query multiset, body JSON, errors)",
                not t2f and not errors and not no_counterpart, "; ".join((t2f + no_counterpart)[:8]))
-    ctx.oblige(f"[{tag}] generated methods satisfy the model's hypotheses (wf_uri, names_agree)", not hyp, "; ".join(hyp[:8]))
+    ctx.oblige(f"[{tag}] generated methods satisfy the model's hypotheses (wf_uri, names_agree, printable, clash-free)", not hyp, "; ".join(hyp[:8]))
     ctx.oblige(f"[{tag}] every library is generated, read with ast (fail-closed) and driven ({len(jobs)} libraries)", not gen_errors,
                "; ".join(gen_errors[:6]), "T1")
     dis = [t2cases[f] for f in t2f if f in t2cases] + [t2cases[x.split(':')[0]] for x in no_counterpart if x.split(':')[0] in t2cases]
